@@ -3,7 +3,11 @@
 #include "verif_c.h"
 #include "constants.h"
 
+#ifdef CAP                                     /* only the small-scope counterexample search (defines_small) sets CAP */
+#define MAXLEN (CAP)
+#else
 #define MAXLEN (SPX_SET_MAX_LINE_LEN - 1)     /* longest string getline() can put into char line[SPX_SET_MAX_LINE_LEN] */
+#endif
 #ifndef SLACK
 #define SLACK 0                                /* readable NUL bytes behind the terminator (0 = exactly sized buffer) */
 #endif
